@@ -7,6 +7,7 @@ import Pycdlib.Model.Dates
 import Pycdlib.Model.Stream
 import Pycdlib.Model.Reader
 import Pycdlib.Model.ReaderUdf
+import Pycdlib.Model.Spec
 namespace Pycdlib
 
 def parseCps (s : String) : Option (List Nat) :=
@@ -55,6 +56,7 @@ def dispatchPure (toks : List String) : Option String :=
   | ["dates", t, off, flags] => do
     let t ← t.toInt?; let off ← off.toInt?; let fl ← flags.toNat?
     pure s!"{gmtoffset (civil (t + off)) (civil t)} {toHex (drDate t off)} {toHex (vdDate t off)} {toHex (udfDate t off)} {toHex (tfRecord fl t off)}"
+  | "spec" :: rr :: ops => some (Spec.runProtocol (rr = "1") ops)
   | _ => none
 
 def dispatchIO (toks : List String) : IO (Option String) := do
